@@ -39,7 +39,8 @@ def cases(seed, tier):
             kind = str(rng.choice(['normal', 'skewed', 'five', 'huge', 'beta', 'heavy', 'bimodal', 'tiny', 'minuscule', 'offset']))
             out.append({'kind': 'univariate', 'model': ms, 'data': {'kind': kind, 'n': int(rng.choice([40, 300])),
                                                                      'seed': int(rng.integers(1 << 31))}})
-        out.append({'kind': 'univariate', 'model': ms, 'constant': float(rng.choice([3.0, -1.5, 0.0, 1e5]))})
+        out.append({'kind': 'univariate', 'model': ms, 'constant': float(rng.choice([3.0, -1.5, 1e5]))})
+        out.append({'kind': 'univariate', 'model': ms, 'constant': 0.0})       # a falsy constant
     for fam in biv.FAMILIES:
         taus = [0.05, 0.3, 0.6, 0.8] + ([-0.4, -0.8] if fam == 'frank' else [])
         for tau in taus if tier == 'quick' else taus + [float(rng.uniform(0.02, 0.9)) for _ in range(20)]:
@@ -331,7 +332,10 @@ def _vine(spec, ctx):
          'marginals': [str(rng.choice(['normal', 'gamma', 'beta', 'uniform'])) for _ in range(d)], 'names': 'str',
          'seed': spec['seed']}
     df, _ = mv.make_table(t)
-    where = {'kind': 'vine', 'vine_type': spec['vine_type'], 'd': d, 'truncated': spec['truncated']}
+    if spec['seed'] % 3 == 0:
+        df.columns = list(range(10, 10 + d))          # non-string labels
+    where = {'kind': 'vine', 'vine_type': spec['vine_type'], 'd': d, 'truncated': spec['truncated'],
+             'labels': 'int' if spec['seed'] % 3 == 0 else 'str'}
     model = VineCopula(spec['vine_type'])
     with interpose.poison_empty(111.0, tree_mod, vine_mod):
         ok, exc = ctx.call(model.fit, df.copy(), truncated=spec['truncated'])
